@@ -55,11 +55,19 @@ def run(case, drv):
         import numpy as np
         steps = [(BASES[c[1]], BASES[c[2]]) if isinstance(c, list) else (BASES[c], None) for c in case['calls']]
         calls = [b for b, _ in steps]
-        vals, hits = [], []
+        vals, hits, runs = [], [], []
+        # The history is cut into RUNS of explicit get_ops calls: whatever a distribution does in between (it may or may not
+        # ask the memo itself - that is an implementation choice, not part of the statement) only has to keep what is
+        # memoised; each run of explicit calls is compared with memoRun started from the memo as it really is.
+        run_init, run_calls, run_vals, run_hits = list(init), [], [], []
+
+        def close_run():
+            if run_calls:
+                runs.append((list(run_init), list(run_calls), list(run_vals), list(run_hits), [canon(k) for k in ops.cache]))
         for b, b2 in steps:
-            hit = b in ops.cache
-            before = [(canon(k), id(o)) for k, o in ops.cache.items()]
             if b2 is not None:
+                close_run()
+                before = [(canon(k), id(o)) for k, o in ops.cache.items()]
                 with np.errstate(all='ignore'):
                     pm = [0.5, 0.25, 0.25] if b == 'linear' else ops.get_ops(b).log(np.array([0.5, 0.25, 0.25]))
                     dd = dit.Distribution(['0', '1', '2'], pm, base=b)
@@ -69,7 +77,15 @@ def run(case, drv):
                         r.oracle_fail = ('a distribution in base %r reports base %r after ANOTHER distribution in that base was '
                                          're-based to %r' % (b, keep.get_base(), b2))
                         break
+                after = [(canon(k), id(o2)) for k, o2 in ops.cache.items()]
+                if after[:len(before)] != before:
+                    r.oracle_fail = ('building a distribution in base %r and re-basing it to %r replaced or removed memoised '
+                                     'operations objects: %s -> %s' % (b, b2, [k for k, _ in before], [k for k, _ in after]))
+                    break
                 r.features.append('memo-dist-rebase')
+                run_init, run_calls, run_vals, run_hits = [k for k, _ in after], [], [], []
+            hit = b in ops.cache
+            before = [(canon(k), id(o)) for k, o in ops.cache.items()]
             o = ops.get_ops(b)
             after = [(canon(k), id(o2)) for k, o2 in ops.cache.items()]
             if after[:len(before)] != before:
@@ -84,18 +100,22 @@ def run(case, drv):
                 break
             vals.append(canon(o.get_base()))
             hits.append(bool(hit))
+            run_calls.append(canon(b)); run_vals.append(vals[-1]); run_hits.append(hits[-1])
+        close_run()
         keys = [canon(k) for k in ops.cache]
         for k, o in ops.cache.items():
             if not r.oracle_fail and canon(o.get_base()) != canon(k):
                 r.oracle_fail = 'after get_ops%s the memo maps %r to operations in base %r' % (tuple(calls), k, o.get_base())
         r.nontrivial = len(set(calls)) >= 2 and any(hits) and not all(hits)
         r.features += ['memo-calls=%d' % min(len(calls), 10), 'memo-new-keys=%d' % (len(keys) - len(init)),
-                       'memo-warm=%s' % bool(case.get('warm'))]
+                       'memo-warm=%s' % bool(case.get('warm')), 'memo-runs=%d' % len(runs)]
         if not r.oracle_fail:
-            m_vals, m_keys, m_hits = drv.call('memo', [init, [canon(b) for b in calls]])
-            if (vals, keys, hits) != (m_vals, m_keys, m_hits):
-                r.mismatch = ('get_ops history %s from memo %s: impl values %s keys %s hits %s; model memoRun values %s keys %s '
-                              'hits %s' % ([canon(b) for b in calls], init, vals, keys, hits, m_vals, m_keys, m_hits))
+            for r_init, r_calls, r_vals, r_hits, r_keys in runs:
+                m_vals, m_keys, m_hits = drv.call('memo', [r_init, r_calls])
+                if (r_vals, r_keys, r_hits) != (m_vals, m_keys, m_hits):
+                    r.mismatch = ('get_ops history %s from memo %s: impl values %s keys %s hits %s; model memoRun values %s keys %s '
+                                  'hits %s' % (r_calls, r_init, r_vals, r_keys, r_hits, m_vals, m_keys, m_hits))
+                    break
         r.site = 'dit.math.ops.get_ops'
         r.detail = {'initial_keys': init, 'calls': [canon(b) for b in calls], 'values': vals, 'keys': keys, 'hits': hits}
     finally:
